@@ -30,12 +30,12 @@ use ironcalc_base::{
         types::CellReferenceRC,
         utils::number_to_column,
     },
-    types::{ArrayKind, Cell, FormulaValue, Link, SpillValue, Worksheet},
+    types::{ArrayKind, Cell, Color, FormulaValue, Link, SpillValue, Worksheet},
 };
 
 use crate::export::conditional_formatting::get_conditional_formatting_xml;
 
-use super::{escape::escape_xml, xml_constants::XML_DECLARATION};
+use super::{escape::escape_xml, styles_util::get_color_xml, xml_constants::XML_DECLARATION};
 
 fn get_range_str(row: i32, column: i32, width: i32, height: i32) -> Option<String> {
     let column1 = number_to_column(column)?;
@@ -199,7 +199,17 @@ pub(crate) fn get_worksheet_xml(
         row_style_dict.insert(row.r, row.clone());
     }
 
-    for (row_index, row_data) in worksheet.sheet_data.iter().sorted_by_key(|x| x.0) {
+    // the rows that hold cells and the rows that only have attributes (a height, hidden, a style)
+    let mut row_indexes: Vec<i32> = worksheet.sheet_data.keys().copied().collect();
+    for row in &worksheet.rows {
+        if !worksheet.sheet_data.contains_key(&row.r) {
+            row_indexes.push(row.r);
+        }
+    }
+    row_indexes.sort_unstable();
+    let no_cells = HashMap::new();
+    for row_index in &row_indexes {
+        let row_data = worksheet.sheet_data.get(row_index).unwrap_or(&no_cells);
         let mut row_data_str: Vec<String> = vec![];
         for (column_index, cell) in row_data.iter().sorted_by_key(|x| x.0) {
             let column_name = number_to_column(*column_index).unwrap();
@@ -655,9 +665,16 @@ pub(crate) fn get_worksheet_xml(
 
     let hyperlinks_section = get_hyperlinks_section(worksheet);
 
+    // the colour of the sheet tab
+    let sheet_pr = match &worksheet.color {
+        Color::None => "".to_string(),
+        color => format!("<sheetPr>{}</sheetPr>", get_color_xml(color, "tabColor")),
+    };
+
     format!(
         "{XML_DECLARATION}\
 <worksheet xmlns=\"http://schemas.openxmlformats.org/spreadsheetml/2006/main\" xmlns:r=\"http://schemas.openxmlformats.org/officeDocument/2006/relationships\">\
+  {sheet_pr}\
   <dimension ref=\"{dimension}\"/>\
   <sheetViews>\
     <sheetView workbookViewId=\"0\"{show_grid_lines}{tab_selected}>\
